@@ -236,12 +236,14 @@ def check_nearmiss(case):
     raise OutOfDomain('recursion')
   except Exception as e:  # pylint: disable=broad-except
     if isinstance(e, TypeError):
-      try:
-        py_eval(REF_RE.sub("'r'", text))
-      except TypeError:
-        raise OutOfDomain('Python raises TypeError too (unhashable key)')
-      except Exception:  # pylint: disable=broad-except
-        pass
+      # with and without references replaced (the text may contain '@' inside a string)
+      for variant in (text, REF_RE.sub("'r'", text)):
+        try:
+          py_eval(variant)
+        except TypeError:
+          raise OutOfDomain('Python raises TypeError too (unhashable key)')
+        except Exception:  # pylint: disable=broad-except
+          pass
     raise Violation('wrong-exception-class', f'{type(e).__name__}: {e} for text {text!r}')
   if len(stmts) != 1 or not isinstance(stmts[0], config_parser.BindingStatement):
     raise OutOfDomain('text spells more than one statement')
